@@ -114,7 +114,7 @@ func main() {
 
 	nFuncs, size := 450, 14
 	if lib.Thorough() {
-		nFuncs, size = 4000, 18
+		nFuncs, size = 2500, 18
 	}
 	if s := os.Getenv("VERIF_C08_N"); s != "" {
 		fmt.Sscan(s, &nFuncs)
